@@ -180,3 +180,71 @@ def c14_ansi_long(e):
     prefix = ["", "38;5;", "48;2;1;"][int(e.mk("prefix", 0, 2))]
     out = list(AnsiDecoder().decode("\x1b[" + prefix + d * k + "mx"))
     return len(out) == 1 and out[0].plain == "x"
+
+
+# --- the same styled object rendered repeatedly, and text whose control codes are stripped before styling (P) -----------------
+from rich.panel import Panel  # noqa: E402
+from rich.table import Table  # noqa: E402
+
+
+def _styled_text(justify):
+    t = Text("hello brave world", justify=justify)
+    t.stylize("bold", 0, 5)
+    t.stylize("red", 6, 17)
+    return t
+
+
+def _styled_table(justify):
+    tb = Table()
+    tb.add_column("h", justify=justify)
+    tb.add_row(_styled_text(None))
+    tb.add_row("[b]x[/b] y")
+    return tb
+
+
+_REPEAT = [lambda j: _styled_text(j), lambda j: Panel(_styled_text(j)), _styled_table, lambda j: Panel.fit(_styled_table(j))]
+
+
+@symx("C14-render-repeated-styled", timeout=900, kind="P",
+      functions=["rich/console.py:Console.print", "rich/text.py:Text.wrap", "rich/text.py:Text.copy", "rich/containers.py:Lines.justify",
+                 "rich/text.py:Text.render"],
+      bounds="ONE object from {styled Text, Panel of it, Table with a styled Text cell and a markup cell, Panel.fit of that table} x "
+             "justify in {left, center, right, full} printed three times and measured in between, at three solver-chosen widths "
+             "1..24 (step: 1,2,3,5,8,13,20,24): never raises (a render must not leave the object in a state the next one chokes on)")
+def c14_repeated(e):
+    mk = _REPEAT[int(e.mk("object", 0, len(_REPEAT) - 1))]
+    r = mk(["left", "center", "right", "full"][int(e.mk("justify", 0, 3))])
+    widths = [1, 2, 3, 5, 8, 13, 20, 24]
+    for i in range(3):
+        w = widths[int(e.mk("w%d" % i, 0, len(widths) - 1))]
+        c = cat.console(width=w)
+        c.print(r)
+        Measurement.get(c, r, w)
+    return True
+
+
+_CTOK = ["\r", "\x08", "\x0b", "[b]", "[/b]", "X", "[red]", "[/]", "\x1b[32m", "\x1b[0m"]
+
+
+@symx("C14-control-codes-then-styling", timeout=900, kind="P",
+      functions=["rich/console.py:Console.print", "rich/markup.py:render", "rich/text.py:Text.append", "rich/text.py:Text.assemble",
+                 "rich/ansi.py:AnsiDecoder.decode_line", "rich/control.py:strip_control_codes"],
+      bounds="every string of 4 tokens from %r (control characters that Text strips, markup tags, SGR sequences) printed with markup "
+             "enabled (MarkupError allowed), assembled piecewise with Text.assemble / append with a style, and decoded by AnsiDecoder "
+             "then printed: nothing else is raised (solver-enumerated, native)" % (_CTOK,))
+def c14_ctrl_then_style(e):
+    toks = [_CTOK[int(e.mk("t%d" % i, 0, len(_CTOK) - 1))] for i in range(4)]
+    s = "".join(toks)
+    c = cat.console(width=10)
+    try:
+        c.print(s)
+    except MarkupError:
+        pass
+    c.print(Text.assemble(*[(tok, "italic") if i % 2 else tok for i, tok in enumerate(toks)]))
+    t = Text()
+    for i, tok in enumerate(toks):
+        t.append(tok, "bold" if i % 2 == 0 else None)
+    c.print(t)
+    for line in AnsiDecoder().decode(s):
+        c.print(line)
+    return True
